@@ -57,6 +57,7 @@ theorem popN_closed (n : Nat) : PC.Closed (PopN n) where
   lastFlush := fun _ _ h => h
   siteCnt := fun _ _ h => h
   emitInj := fun _ _ _ _ _ h => h
+  note := fun _ h => h
   clock := fun _ _ h => h
   gone := fun _ h => h
   refresh := fun s h => by unfold PopN; rw [refreshCache_popLog]; exact h
